@@ -1,5 +1,7 @@
 package dyndrv
 
+import "fmt"
+
 func seqBack(minfree, block int, cookie string, preserve bool, ips ...string) []BackSpec {
 	b := BackSpec{NS: "d", Name: "app", Port: "8080", Dyn: true, MinFree: minfree, Block: block, InitW: 1, Cookie: cookie, Preserve: preserve}
 	for _, ip := range ips {
@@ -19,7 +21,25 @@ func CorpusC02() []*Input {
 		// the same with free slots: one server name written twice, running HAProxy keeps the other one
 		{Steps: []Step{{Backs: seqBack(6, 1, "", false, "10.0.0.1", "10.0.0.1", "10.0.0.2")}, {Backs: seqBack(6, 1, "", false, "10.0.0.1", "10.0.0.1", "10.0.0.3")}}},
 	}
+	in = append(in, corpusWeights()...)
 	return append(in, corpusCerts()...)
+}
+
+func weighted(ws ...int) []BackSpec {
+	b := BackSpec{NS: "d", Name: "app", Port: "8080", Dyn: true, MinFree: 2, Block: 1, InitW: 1}
+	for i, w := range ws {
+		b.Eps = append(b.Eps, EpSpec{IP: fmt.Sprintf("10.0.0.%d", i+1), Port: 80, Weight: w})
+	}
+	return []BackSpec{b}
+}
+
+// corpusWeights: enabled endpoints reaching weight 0 through a dynamic update (drain, blue/green
+// 50/50 -> 100/0) and leaving it again: the written server line must load as what is running.
+func corpusWeights() []*Input {
+	return []*Input{
+		{Steps: []Step{{Backs: weighted(1, 1)}, {Backs: weighted(1, 0)}, {Backs: weighted(1, 0, 1)}, {Backs: weighted(1, 1, 1)}}},
+		{Steps: []Step{{Backs: weighted(128, 128)}, {Backs: weighted(256, 0)}, {Backs: weighted(0, 256)}, {Backs: weighted(0, 256, 0)}}},
+	}
 }
 
 func tlsHost(name, crt, content string) HostSpec {
